@@ -58,12 +58,12 @@ def _is_border(m, y, x):
     return bool(m[:y, x].all() or m[y + 1:, x].all() or m[y, :x].all() or m[y, x + 1:].all())
 
 
-def check_edge_border(mask_l, ps, origin, ctx):
+def check_edge_border(mask_l, ps, origin, ctx, mask_obj=None, pre=""):
     import autoarray as aa
     m = np.asarray(mask_l, dtype=bool)
     h, w = m.shape
     un = ~m
-    mask = aa.Mask2D(mask=m.copy(), pixel_scales=tuple(ps), origin=tuple(origin))
+    mask = mask_obj if mask_obj is not None else aa.Mask2D(mask=m.copy(), pixel_scales=tuple(ps), origin=tuple(origin))
     slim_of = -np.ones((h, w), dtype=int)
     slim_of[un] = np.arange(int(un.sum()))
     req, forb = _edge_required_forbidden(m)
@@ -71,54 +71,54 @@ def check_edge_border(mask_l, ps, origin, ctx):
     di = mask.derive_indexes
     edge_slim = np.asarray(di.edge_slim)
     ok_int = edge_slim.ndim == 1 and np.all(edge_slim == np.round(edge_slim))
-    ctx.check(ok_int, "edge/slim-format", "edge_slim not a 1D list of integers: %r" % (edge_slim,))
+    ctx.check(ok_int, pre + "edge/slim-format", "edge_slim not a 1D list of integers: %r" % (edge_slim,))
     es = edge_slim.astype(int)
     n = int(un.sum())
-    ctx.check(np.all((es >= 0) & (es < n)), "edge/slim-range", "edge_slim out of range: %s (n=%d)" % (es, n))
-    ctx.check(np.all(np.diff(es) > 0), "edge/slim-order", "edge_slim not strictly increasing: %s" % es)
+    ctx.check(np.all((es >= 0) & (es < n)), pre + "edge/slim-range", "edge_slim out of range: %s (n=%d)" % (es, n))
+    ctx.check(np.all(np.diff(es) > 0), pre + "edge/slim-order", "edge_slim not strictly increasing: %s" % es)
     nat = np.argwhere(un)
     in_range = es[(es >= 0) & (es < n)]
     eset = np.zeros_like(m)
     eset[nat[in_range, 0], nat[in_range, 1]] = True
     missing = req & ~eset
     extra = forb & eset
-    ctx.check(not missing.any(), "edge/missing",
+    ctx.check(not missing.any(), pre + "edge/missing",
               lambda: "unmasked pixels with a masked 8-neighbour not in edge set: %s (edge_slim=%s)" % (np.argwhere(missing).tolist(), es.tolist()))
-    ctx.check(not extra.any(), "edge/extra",
+    ctx.check(not extra.any(), pre + "edge/extra",
               lambda: "interior pixels (8 unmasked neighbours) in edge set: %s (edge_slim=%s)" % (np.argwhere(extra).tolist(), es.tolist()))
     # views
-    ctx.equal(np.asarray(di.edge_native), nat[in_range] if len(in_range) == len(es) else None, "edge/native-view", "edge_native vs native_for_slim[edge_slim]")
+    ctx.equal(np.asarray(di.edge_native), nat[in_range] if len(in_range) == len(es) else None, pre + "edge/native-view", "edge_native vs native_for_slim[edge_slim]")
     em = np.asarray(mask.derive_mask.edge)
-    ctx.equal(em, ~eset, "edge/mask-view", "derive_mask.edge vs edge_slim pixels")
+    ctx.equal(em, ~eset, pre + "edge/mask-view", "derive_mask.edge vs edge_slim pixels")
     ys, xs = _centres(h, w, ps, origin)
     eg = np.asarray(mask.derive_grid.edge)
     want = np.stack([ys[nat[in_range, 0]], xs[nat[in_range, 1]]], axis=-1) if len(in_range) else np.zeros((0, 2))
-    ctx.close(eg.reshape(-1, 2), want, "edge/grid-view", atol=1e-9, what="derive_grid.edge coordinates in slim order")
+    ctx.close(eg.reshape(-1, 2), want, pre + "edge/grid-view", atol=1e-9, what="derive_grid.edge coordinates in slim order")
 
     # border: exactly the edge pixels (as returned) with a clear walk
     border_slim = np.asarray(di.border_slim)
     bs = border_slim.astype(int)
-    ctx.check(border_slim.ndim == 1 and np.all(border_slim == bs), "border/slim-format", "border_slim not integer list")
+    ctx.check(border_slim.ndim == 1 and np.all(border_slim == bs), pre + "border/slim-format", "border_slim not integer list")
     want_bs = np.array([k for k in in_range if _is_border(m, nat[k, 0], nat[k, 1])], dtype=int)
-    ctx.equal(bs, want_bs, "border/slim", "border_slim vs edge pixels with a clear axis walk (edge_slim=%s)" % es.tolist())
+    ctx.equal(bs, want_bs, pre + "border/slim", "border_slim vs edge pixels with a clear axis walk (edge_slim=%s)" % es.tolist())
     okb = bs[(bs >= 0) & (bs < n)]
     if len(okb) == len(bs):
-        ctx.equal(np.asarray(di.border_native), nat[okb], "border/native-view", "border_native")
+        ctx.equal(np.asarray(di.border_native), nat[okb], pre + "border/native-view", "border_native")
         bset = np.zeros_like(m)
         bset[nat[okb, 0], nat[okb, 1]] = True
-        ctx.equal(np.asarray(mask.derive_mask.border), ~bset, "border/mask-view", "derive_mask.border")
+        ctx.equal(np.asarray(mask.derive_mask.border), ~bset, pre + "border/mask-view", "derive_mask.border")
         bg = np.asarray(mask.derive_grid.border)
         wantb = np.stack([ys[nat[okb, 0]], xs[nat[okb, 1]]], axis=-1) if len(okb) else np.zeros((0, 2))
-        ctx.close(bg.reshape(-1, 2), wantb, "border/grid-view", atol=1e-9, what="derive_grid.border coordinates")
+        ctx.close(bg.reshape(-1, 2), wantb, pre + "border/grid-view", atol=1e-9, what="derive_grid.border coordinates")
     # edge_buffed: unmasked region dilated by one pixel (8-neighbourhood)
     eb = np.asarray(mask.derive_mask.edge_buffed)
     dil = np.zeros_like(m)
     for (y, x) in nat:
         dil[max(0, y - 1):y + 2, max(0, x - 1):x + 2] = True
-    ctx.equal(eb, ~dil, "edge_buffed", "derive_mask.edge_buffed vs 1-pixel dilation of the unmasked region")
+    ctx.equal(eb, ~dil, pre + "edge_buffed", "derive_mask.edge_buffed vs 1-pixel dilation of the unmasked region")
 
 
-def check_blurring(mask_l, kernel_shape, ps, origin, ctx, with_grid=True):
+def check_blurring(mask_l, kernel_shape, ps, origin, ctx, with_grid=True, mask_obj=None, pre=""):
     import autoarray as aa
     from autoarray import exc
     m = np.asarray(mask_l, dtype=bool)
@@ -136,24 +136,24 @@ def check_blurring(mask_l, kernel_shape, ps, origin, ctx, with_grid=True):
         blur[y0:y1, x0:x1] = True
     blur &= m
     ctx.label("blur:leaves-array" if leaves else "blur:inside", "kernel:nonsquare" if kh != kw else "kernel:square")
-    mask = aa.Mask2D(mask=m.copy(), pixel_scales=tuple(ps), origin=tuple(origin))
+    mask = mask_obj if mask_obj is not None else aa.Mask2D(mask=m.copy(), pixel_scales=tuple(ps), origin=tuple(origin))
     try:
         got = mask.derive_mask.blurring_from(kernel_shape_native=(kh, kw))
         raised = False
     except exc.MaskException:
         raised = True
-    ctx.check(raised == leaves, "blurring/raise-iff-leaves",
+    ctx.check(raised == leaves, pre + "blurring/raise-iff-leaves",
               "footprint leaves array=%s but MaskException raised=%s (kernel %s)" % (leaves, raised, (kh, kw)))
     if not raised and not leaves:
-        ctx.equal(np.asarray(got), ~blur, "blurring/mask", "blurring mask for kernel %s" % ((kh, kw),))
-        ctx.check(tuple(got.pixel_scales) == tuple(ps) and tuple(got.origin) == tuple(origin), "blurring/geometry",
+        ctx.equal(np.asarray(got), ~blur, pre + "blurring/mask", "blurring mask for kernel %s" % ((kh, kw),))
+        ctx.check(tuple(got.pixel_scales) == tuple(ps) and tuple(got.origin) == tuple(origin), pre + "blurring/geometry",
                   "blurring mask pixel_scales/origin differ")
         if with_grid:
             g = np.asarray(aa.Grid2D.blurring_grid_from(mask=mask, kernel_shape_native=(kh, kw)))
             ys, xs = _centres(h, w, ps, origin)
             idx = np.argwhere(blur)
             want = np.stack([ys[idx[:, 0]], xs[idx[:, 1]]], axis=-1) if len(idx) else np.zeros((0, 2))
-            ctx.close(g.reshape(-1, 2), want, "blurring/grid", atol=1e-9, what="Grid2D.blurring_grid_from")
+            ctx.close(g.reshape(-1, 2), want, pre + "blurring/grid", atol=1e-9, what="Grid2D.blurring_grid_from")
 
 
 def _labels(mask_l, ctx):
@@ -223,9 +223,77 @@ def even_case(draw):
     return {"mask": mask, "kernel_shape": [kh, kw]}
 
 
+# ---------------------------------------------------------------------------------------------
+# derived / reused mask objects: the sets must follow the CURRENT contents of the object that is asked
+# (added after the independently seeded changes C10c / C10d: per-object caches carried over by copy semantics,
+# a held DeriveIndexes2D object whose cached edge array is rewritten by a border read)
+# ---------------------------------------------------------------------------------------------
+@st.composite
+def derived_case(draw):
+    ring = draw(st.sampled_from([1, 2, 2, 3]))
+    mask = draw(gens.masks(lo=2, hi=7, ring=ring, min_unmasked=2))
+    h, w = len(mask), len(mask[0])
+    return {"mask": mask, "kernel_shape": [draw(st.sampled_from([1, 3, 5])), draw(st.sampled_from([1, 3, 5]))],
+            "pixel_scales": draw(gens.pixel_scales()), "origin": draw(gens.origins()),
+            "derive": draw(st.sampled_from(["invert", "copy-edit", "copy.copy-edit", "deepcopy-edit", "edit-in-place", "same"])),
+            "edits": draw(st.lists(st.tuples(st.integers(0, h - 1), st.integers(0, w - 1), st.booleans()).map(list), min_size=1, max_size=3)),
+            "reads": draw(st.lists(st.sampled_from(["border_slim", "edge_slim", "border_native", "edge_native", "border_slim"]), min_size=2, max_size=5))}
+
+
+def body_derived(case, ctx):
+    import copy
+    import autoarray as aa
+    from autoarray import exc
+    m = np.asarray(case["mask"], dtype=bool)
+    ps, origin, k = case["pixel_scales"], case["origin"], tuple(case["kernel_shape"])
+    _labels(case["mask"], ctx)
+    ctx.label("derive:%s" % case["derive"])
+    ctx.nt(True)
+    parent = aa.Mask2D(mask=m.copy(), pixel_scales=tuple(ps), origin=tuple(origin))
+    # read everything on the parent first (fills whatever caches exist)
+    check_edge_border(case["mask"], ps, origin, ctx, mask_obj=parent, pre="parent/")
+    check_blurring(case["mask"], k, ps, origin, ctx, mask_obj=parent, pre="parent/")
+    d = case["derive"]
+    if d == "invert":
+        child = parent.invert()
+    elif d == "copy-edit":
+        child = parent.copy()
+    elif d == "copy.copy-edit":
+        child = copy.copy(parent)
+    elif d == "deepcopy-edit":
+        child = copy.deepcopy(parent)
+    else:
+        child = parent
+    if d not in ("invert", "same"):
+        for (i, j, v) in case["edits"]:
+            child[i, j] = bool(v)
+    cur = np.array(child).astype(bool)
+    if (~cur).sum() == 0:
+        ctx.label("derived:fully-masked"); return
+    check_edge_border(cur.tolist(), ps, origin, ctx, mask_obj=child, pre="derived/")
+    check_blurring(cur.tolist(), k, ps, origin, ctx, mask_obj=child, pre="derived/")
+    if d not in ("edit-in-place", "same"):
+        # the parent is unaffected by edits of its copy and still answers for its own contents
+        ctx.equal(np.array(parent), m, "derived/parent-aliased", "parent contents changed by editing a copy")
+        check_blurring(case["mask"], k, ps, origin, ctx, mask_obj=parent, pre="parent-after/")
+    # one held DeriveIndexes2D object read several times in generated order
+    di = child.derive_indexes
+    un = ~cur
+    nat = np.argwhere(un)
+    first = {}
+    for name in case["reads"]:
+        got = np.asarray(getattr(di, name))
+        ref_obj = aa.Mask2D(mask=cur.copy(), pixel_scales=tuple(ps), origin=tuple(origin)).derive_indexes
+        want = np.asarray(getattr(ref_obj, name))
+        ctx.equal(got, want, "held-derive-indexes/%s" % name, "%s read on a held DeriveIndexes2D object after %s" % (name, list(first)))
+        first[name] = True
+
+
 SUBCHECKS = [
     SubCheck("enum", body_enum, cases=cases_enum, shards={"quick": 16, "thorough": 16}),
     SubCheck("given", body_given, strategy=given_case(), examples={"quick": 400, "thorough": 6000},
+             shards={"quick": 2, "thorough": 8}),
+    SubCheck("derived", body_derived, strategy=derived_case(), examples={"quick": 400, "thorough": 6000},
              shards={"quick": 2, "thorough": 8}),
     SubCheck("even-kernel", body_even_kernel, strategy=even_case(), examples={"quick": 40, "thorough": 200},
              shards={"quick": 1, "thorough": 1}),
